@@ -1,6 +1,6 @@
 (* C20 — glue evaluated by generated case files: verdict = (model = impl?) + 2*(checker rejects impl) *)
 From EsVerif.Common Require Import Base.
-From EsVerif.C20 Require Import Model Model2 Spec Proofs Proofs2 Meter.
+From EsVerif.C20 Require Import Model Model2 Spec Proofs Proofs2 Meter Shape.
 
 Definition zz_eqb := list_eqb zpair_eqb.
 
@@ -199,3 +199,17 @@ Fixpoint status_texts (last : Z) (ss : list (list Z)) : list (list Z) :=
 (* written = the pieces of the output between carriage returns, as character codes *)
 Definition v_status (ss written : list (list Z)) : Z :=
   verdict (list_eqb zlist_eqb (status_texts 0 ss) written) true.
+
+(* ================================================================== pmap with progress-bar keywords *)
+(* pmap(fn, items, chunksize, nproc, **kw) with kw = simple / total: the model is the source's composition
+   (Shape.pmap_kw); the property is required when the bar is defined over a generator *)
+Definition v_pmap_kw (c : pcfg) (a b : Z) (items : list Z) (chunksize : Z) (out_end : option err) (out_res : list Z) : Z :=
+  let f := fun x => a * x * x + b in
+  let n := length (chunks_of (length items) (Z.to_nat chunksize) items) in
+  verdict (match pmap_kw c f items chunksize (zseq 0 n) with
+           | Some (vs, e) => option_eqb err_eqb e out_end && (match e with None => zlist_eqb vs out_res | Some _ => true end)
+           | None => false
+           end)
+          (if pbar_required (as_generator c) (map f items)
+           then match out_end with None => zlist_eqb out_res (map f items) | Some _ => false end
+           else true).
